@@ -3,6 +3,7 @@ import random
 from c09 import b32, u64, N, label
 LEVEL = "model_checking"
 MODULE = "C10_RangeVerify.tla"
+GROUPS = ["rangeproof"]
 TRACE = (MODULE, "C10_trace.cfg")
 REG = dict(category="model_checking",
     text="RangeProof!RpVerify is written from the proof format (reserved bit, exponent <= 18, mantissa <= 64, scale overflow, min+max < 2^64, sign bits with "
@@ -75,10 +76,6 @@ def run(chk):
     chk.label_of = label
     chk.groups = ["rangeproof"]
     variants = ["std"] if quick else ["std", "verify", "i64", "asan"]
-    # the harness interpreter itself does not free its line/output buffers at exit (harness/vh_main.c); LeakSanitizer would turn that
-    # into a non-zero exit status of the asan build.  Leaks are not part of this property: address/UB checking stays on.
-    import os
-    os.environ.setdefault("ASAN_OPTIONS", "detect_leaks=0")
     chk.build(variants)
     recs = chk.generate(MODULE, "C10_gen.cfg", "gen", timeout=2400 if quick else 7200)
     for v in variants:
